@@ -24,7 +24,7 @@ TEXT = dict(
           "across the explicit -inf/+inf end values; bracket invariant a-6o <= lo <= result <= hi <= b+6o with width "
           "(b-a+12o)/2^30; conditional accuracy for a monotone L-Lipschitz cdf; the end-point decision table (point mass constant, "
           "-inf/+inf in the series regime, a/b and the closed form in the noiseless regime incl. o=0, mean+sd*Phi^-1 in the normal "
-          "regime, the o==0 clip branch unreachable). Tied to the code on every run to 1e-8(b-a+12o), exact at q in {0,1}; the "
+          "regime, the o==0 clip branch unreachable); over R the noiseless closed forms are exact inverses, cdf(ppf q) = q. Tied to the code on every run to 1e-8(b-a+12o), exact at q in {0,1}; the "
           "inverse clause, monotonicity and shapes are evaluated on the implementation every run.",
     note="The 1e-5 inversion accuracy is conditional on a Lipschitz constant of the real cdf (C06 numerics) and is measured, not "
          "proved; erfinv is a compared black box; near-tie bisection decisions are skipped and counted.",
